@@ -454,7 +454,8 @@ func cmpkClass(kind string, sv *big.Rat, text string, op string) string {
 }
 
 // witness class of a search-clause / where-stage disagreement
-func cmpkWhereClass(r *cmpkRec, kind string, sv *big.Rat, text string, op string) string {
+// (searchRight: the search clause gave the by-value answer, so the deviation is the where stage's)
+func cmpkWhereClass(r *cmpkRec, kind string, sv *big.Rat, text string, op string, searchRight bool) string {
 	lv, lf, _ := cmpkLitVal(text)
 	typed := cmpkLitTyped(text, lf)
 	floatDomain := kind == "float" || typed == "flt"
@@ -462,11 +463,11 @@ func cmpkWhereClass(r *cmpkRec, kind string, sv *big.Rat, text string, op string
 	switch {
 	case kind == "float" && lf == 0 && (op == "=" || op == "!=") && (r.f != math.Trunc(r.f) || math.Abs(r.f) >= 9.2e18):
 		return "where-eq-zero-nonintegral-float"
-	case kind == "uint" && typed == "int" && lv.Sign() < 0:
+	case !searchRight && kind == "uint" && typed == "int" && lv.Sign() < 0:
 		return "uint64-vs-negative-literal"
-	case kind == "int" && typed == "int" && lv.Cmp(cmpkTwo63) >= 0:
+	case !searchRight && kind == "int" && typed == "int" && lv.Cmp(cmpkTwo63) >= 0:
 		return "int64-vs-literal-beyond-int64"
-	case floatDomain && (op == "=" || op == "!=") && sv.Cmp(lfr) != 0 && cmpkAbs(new(big.Rat).Sub(sv, lfr)).Cmp(cmpkTol) < 0 &&
+	case !searchRight && floatDomain && (op == "=" || op == "!=") && sv.Cmp(lfr) != 0 && cmpkAbs(new(big.Rat).Sub(sv, lfr)).Cmp(cmpkTol) < 0 &&
 		cmpkAbs(sv).Cmp(cmpkTwo53) <= 0:
 		return "float-equality-within-tolerance"
 	case cmpkAbs(sv).Cmp(cmpkTwo53) > 0 || cmpkAbs(lv).Cmp(cmpkTwo53) > 0:
@@ -640,7 +641,7 @@ func execCmpkCmp(a []string) Result {
 		if !wok {
 			res.Fails = append(res.Fails, PropFail{Sig: "cmp/search-vs-where/where-" + wout, Msg: fmt.Sprintf("where %s%s%s on %s: %s", writer.VerifColName, op, l.text, a[1], wout)})
 		} else if wgot != got {
-			res.Fails = append(res.Fails, PropFail{Sig: "cmp/search-vs-where/" + cmpkWhereClass(r, kind, sv, l.text, op),
+			res.Fails = append(res.Fails, PropFail{Sig: "cmp/search-vs-where/" + cmpkWhereClass(r, kind, sv, l.text, op, got == want),
 				Msg: fmt.Sprintf("stored %s (%s): search clause %s%s says %v, `where` stage says %v (by value: %v)", a[1], kind, op, l.text, got, wgot, want)})
 		}
 		res.Tags = append(res.Tags, "where:checked")
